@@ -10,7 +10,10 @@
 (*   Reset{safe}              new run; safe = Batch returns after persist  *)
 (*   Submit{b,puts,dels}      batch b (numbered 1,2,.. per run) handed to  *)
 (*                            Index.Batch; puts/dels are its collapsed ops *)
-(*   IntroSegment{b}          the introducer published batch b             *)
+(*   IntroSegment{b,epoch}    the introducer published batch b as root     *)
+(*                            epoch (0 = not recorded)                     *)
+(*   PersistCommitted{epoch}  the bolt transaction persisting the snapshot *)
+(*                            of that epoch was committed                  *)
 (*   Return{b}                Index.Batch(b) returned without error        *)
 (*   Callback{b}              b's persisted-callback fired                 *)
 (*   Recovered{min,opened,docs,seq,count,matchall}                         *)
@@ -33,13 +36,15 @@ VARIABLES l,        \* index of the next record
           bt,       \* Seq of [puts, dels]: bt[b] = collapsed ops of batch b
           io,       \* introduction order
           returned, cbs,
-          rec       \* batches that had returned when the last online copy began (CopyBegin)
-vars == <<l, safe, bt, io, returned, cbs, rec>>
+          rec,      \* batches that had returned when the last online copy began (CopyBegin)
+          ieps,     \* set of <<b, epoch>>: the root epoch that first contained batch b
+          maxc      \* highest snapshot epoch whose bolt commit has been recorded
+vars == <<l, safe, bt, io, returned, cbs, rec, ieps, maxc>>
 
 SetOf(seq) == { seq[i] : i \in DOMAIN seq }
 DocsOf(seq) == { <<seq[i][1], seq[i][2]>> : i \in DOMAIN seq }
 
-Init == l = 1 /\ safe = TRUE /\ bt = <<>> /\ io = <<>> /\ returned = {} /\ cbs = {} /\ rec = {}
+Init == l = 1 /\ safe = TRUE /\ bt = <<>> /\ io = <<>> /\ returned = {} /\ cbs = {} /\ rec = {} /\ ieps = {} /\ maxc = 0
 
 E == Trace[l]
 
@@ -47,18 +52,20 @@ Step ==
   /\ l <= Len(Trace)
   /\ l' = l + 1
   /\ CASE E.ev = "Reset" ->
-            /\ safe' = E.safe /\ bt' = <<>> /\ io' = <<>> /\ returned' = {} /\ cbs' = {} /\ rec' = {}
+            /\ safe' = E.safe /\ bt' = <<>> /\ io' = <<>> /\ returned' = {} /\ cbs' = {} /\ rec' = {} /\ ieps' = {} /\ maxc' = 0
        [] E.ev = "Submit" ->
             /\ E.b = Len(bt) + 1     \* batches are numbered in submission order
             /\ bt' = Append(bt, [puts |-> SetOf(E.puts), dels |-> SetOf(E.dels)])
-            /\ UNCHANGED <<safe, io, returned, cbs, rec>>
+            /\ UNCHANGED <<safe, io, returned, cbs, rec, ieps, maxc>>
        [] E.ev = "IntroSegment" ->
             /\ io' = IF E.b = 0 THEN io ELSE Append(io, E.b)
-            /\ UNCHANGED <<safe, bt, returned, cbs, rec>>
-       [] E.ev = "Return" -> returned' = returned \cup {E.b} /\ UNCHANGED <<safe, bt, io, cbs, rec>>
-       [] E.ev = "Callback" -> cbs' = cbs \cup {E.b} /\ UNCHANGED <<safe, bt, io, returned, rec>>
-       [] E.ev = "CopyBegin" -> rec' = returned /\ UNCHANGED <<safe, bt, io, returned, cbs>>
-       [] OTHER -> UNCHANGED <<safe, bt, io, returned, cbs, rec>>
+            /\ ieps' = IF E.b = 0 THEN ieps ELSE ieps \cup {<<E.b, E.epoch>>}
+            /\ UNCHANGED <<safe, bt, returned, cbs, rec, maxc>>
+       [] E.ev = "PersistCommitted" -> maxc' = (IF E.epoch > maxc THEN E.epoch ELSE maxc) /\ UNCHANGED <<safe, bt, io, returned, cbs, rec, ieps>>
+       [] E.ev = "Return" -> returned' = returned \cup {E.b} /\ UNCHANGED <<safe, bt, io, cbs, rec, ieps, maxc>>
+       [] E.ev = "Callback" -> cbs' = cbs \cup {E.b} /\ UNCHANGED <<safe, bt, io, returned, rec, ieps, maxc>>
+       [] E.ev = "CopyBegin" -> rec' = returned /\ UNCHANGED <<safe, bt, io, returned, cbs, ieps, maxc>>
+       [] OTHER -> UNCHANGED <<safe, bt, io, returned, cbs, rec, ieps, maxc>>
 
 Spec == Init /\ [][Step]_vars
 
@@ -77,6 +84,13 @@ Ks(docs, seq) == { k \in 0..Len(io) : Explains(k, docs, seq) }
 J == Trace[l - 1]          \* the record just consumed
 IsRec == l > 1 /\ J.ev = "Recovered"
 IsPost == l > 1 /\ J.ev = "PostWrite"
+
+\* C03 without needing a kill: a batch is acknowledged (its call returns in safe
+\* mode / its persisted-callback fires) only after a bolt snapshot that contains
+\* it has been committed (IntroSegment carries the epoch of the first root that
+\* contains the batch; PersistCommitted the epoch of the committed snapshot)
+IsAck == l > 1 /\ (J.ev = "Callback" \/ (J.ev = "Return" /\ safe))
+AckedAfterCommit == IsAck => \A p \in ieps : p[1] = J.b => p[2] <= maxc
 
 \* every introduced batch was submitted, each at most once
 IntroOrderOK == /\ \A i \in 1..Len(io) : io[i] \in 1..Len(bt)
